@@ -257,17 +257,48 @@ func (e *affEnv) loopRange(idx ssa.Value) (lo, hi lin, enter []Edge, header *ssa
 		return
 	}
 	var init ssa.Value
-	backOK := false
+	backOK, down := false, false
 	for _, ed := range p.Edges {
-		if b, isB := ed.(*ssa.BinOp); isB && b.Op == token.ADD && b.X == ssa.Value(p) {
-			if n, isC := constInt(b.Y); isC && n == 1 {
+		if b, isB := ed.(*ssa.BinOp); isB && b.X == ssa.Value(p) {
+			if n, isC := constInt(b.Y); isC && ((b.Op == token.ADD && n == 1) || (b.Op == token.SUB && n == -1)) {
 				backOK = true
+				continue
+			}
+			if n, isC := constInt(b.Y); isC && ((b.Op == token.SUB && n == 1) || (b.Op == token.ADD && n == -1)) {
+				backOK, down = true, true
 				continue
 			}
 		}
 		init = ed
 	}
 	if !backOK || init == nil {
+		return
+	}
+	if down {
+		// for i := init; i > B; i-- (or i >= B): the body sees (B, init] resp. [B, init]
+		for _, ref := range *p.Referrers() {
+			cmp, isCmp := ref.(*ssa.BinOp)
+			if !isCmp || cmp.Block() != p.Block() {
+				continue
+			}
+			var lower lin
+			switch {
+			case cmp.Op == token.GTR && cmp.X == ssa.Value(p):
+				lower = e.Of(cmp.Y).add(konst(1))
+			case cmp.Op == token.GEQ && cmp.X == ssa.Value(p):
+				lower = e.Of(cmp.Y)
+			case cmp.Op == token.LSS && cmp.Y == ssa.Value(p):
+				lower = e.Of(cmp.X).add(konst(1))
+			case cmp.Op == token.LEQ && cmp.Y == ssa.Value(p):
+				lower = e.Of(cmp.X)
+			default:
+				continue
+			}
+			t, _ := boolEdges(cmp)
+			if len(t) > 0 {
+				return lower, e.Of(init).add(konst(1)), t, p.Block(), true
+			}
+		}
 		return
 	}
 	for _, ref := range *p.Referrers() {
